@@ -208,6 +208,12 @@ class Engine:
         self.ghosts = {}
         self.global_axioms = []
 
+    def memo_tables(self):
+        """class-level memo dictionaries declared by any contract (attribute names)"""
+        if not hasattr(self, "_memo_tables"):
+            self._memo_tables = {a for K_ in self.contracts.values() for a in getattr(K_.cls, "memo_tables", ())}
+        return self._memo_tables
+
     def memo_attrs(self):
         """attributes declared as memo attributes by some contract (rule MEMO-ATTRIBUTE)"""
         if not hasattr(self, "_memo_attrs"):
@@ -965,6 +971,9 @@ class Engine:
             return
         if isinstance(tgt, ast.Attribute) and isinstance(tgt.value, ast.Name) and tgt.value.id == "self" and tgt.attr in self.memo_attrs():
             st.env[f"self.{tgt.attr}"] = val
+            return
+        if isinstance(tgt, ast.Subscript) and isinstance(tgt.value, ast.Attribute) and tgt.value.attr in self.memo_tables():
+            # MEMO-TABLE: a store into the class-level memo dictionary (see method_call for `.get`)
             return
         if isinstance(tgt, ast.Subscript):
             base = self.ev(tgt.value, st)
@@ -1871,6 +1880,21 @@ class Engine:
     def nested_comprehension(self, elt, gens, st, kind):
         """Several for-clauses: only the *collection of values* is modelled (BagV over the product
         of the index domains) - enough for set(...) / frozenset(...) / any / all consumers."""
+        if len(gens) == 2 and not gens[0].ifs and not gens[1].ifs and isinstance(gens[1].target, ast.Name) and isinstance(elt, ast.Name) and elt.id == gens[1].target.id:
+            # {x for item in FIXED_TUPLE for x in f(item)} with set-valued f(item): the union of those sets
+            outer = self.ev(gens[0].iter, st)
+            if isinstance(outer, TupV):
+                parts = []
+                for item in outer.items:
+                    s2 = st.child(forward=True)
+                    self.assign(gens[0].target, item, s2)
+                    inner = self.ev(gens[1].iter, s2)
+                    if not (isinstance(inner, SetV) and inner.arity == 1):
+                        parts = None
+                        break
+                    parts.append(inner)
+                if parts is not None:
+                    return SetV(lambda v, parts=parts: z3.Or([B(p_.contains(v)) for p_ in parts]) if parts else z3.BoolVal(False), 1)
         env0 = {k: (v.copy() if isinstance(v, ListV) else v) for k, v in st.env.items()}
         pc0 = list(st.pc)
         eng = self
